@@ -17,6 +17,12 @@ T = {
     'C16-1': ('C16', 'one-byte NLRI length used for exactly 240 bytes', 'a rule of exactly 240 bytes', ['C16: deductive, clause post:1 of Flow._encode_length (replayed); bounded text-to-wire']),
     'C16-2': ('C16', 'AND bit carried over to the following OR terms of a bracketed list', 'a list with an a&b term followed by another term', ['C16: bounded text-to-wire (text parser is bounded only)']),
     'C16-3': ('C16', 'undefined trailing component type keeps the shorter rule (break instead of refusal)', 'a rule followed by a component type above the family maximum', ['C16: deductive, clause post:0 of Flow._parse_rules (whole payload walked); bounded wire-decode (replayed)']),
+    'C02-1': ('C02', 'MP_REACH next hop taken as the LAST 16 bytes: a 32-byte global+link-local next hop is reported as the link-local', 'an MP_REACH with a 32-byte IPv6 next hop', ['C02: bounded decode-vs-reference (replayed)']),
+    'C02-2': ('C02', 'Cache.update_cache keeps the old route when attributes.index() is unchanged: an MP route re-announced with a new next hop keeps the old one in Adj-RIB-In', 'two-step history on an MP family with identical attributes and different next hops', ['C02: bounded rib-history (replayed)']),
+    'C02-3': ('C02', 'JSON._update hoists m out of the per-family loop: IPv4 prefixes repeated under "ipv6 unicast"', 'one UPDATE announcing two families', ['C02: bounded decode-vs-reference (replayed)']),
+    'C08-1': ('C08', 'zero-length rule narrowed to treat-as-withdraw classes: a zero-length COMMUNITY etc. is decoded as a valid empty attribute', 'a zero-length attribute of a class without the flag', ['C08: bounded single-attribute-corruption (zero length)']),
+    'C08-2': ('C08', 'cls.previous = data moved before the parse: a malformed block seen twice is served the earlier good collection', 'three-step history: good, malformed, same malformed again', ['C08/C19: deductive, clause final:0 / post:2 (cache invariant) of AttributeCollection.unpack']),
+    'C08-3': ('C08', 'ORIGIN value 3 accepted (> 3 instead of > 2)', 'an UPDATE with ORIGIN = 3', ['C08/C02: deductive, clause raises:ValueError:0:if of Origin.from_packet (replayed)']),
 }
 for sid, (pid, what, needs, caught) in T.items():
     d = os.path.join(ROOT, 'seeded', sid)
